@@ -367,7 +367,7 @@ class SpawnClose(Contract):
         out = pty_base(v)
         if v.raised is None:
             out += [('C10:closed-and-descriptor-forgotten', And(new.closed, eq(new.child_fd, -1), new.ptyproc.closed)),
-                    ('C10:child-dead-and-reaped', Implies(Not(old.closed), And(new.terminated, fields_are_fate(new, v.g)))),
+                    ('C09+C10:child-dead-reaped-and-status-recorded', Implies(Not(old.closed), And(new.terminated, fields_are_fate(new, v.g)))),
                     ('C10:idempotent-no-second-close-of-the-descriptor',
                      eq(v.g['closed_fds'], v.g0['closed_fds'] + ite(old.closed, 0, 1)))]
         else:
@@ -488,7 +488,97 @@ class PopenProcWait(Contract):
         return [('returncode', And(eq(v.result, -g['fate_sig']), g['fate_sig'] >= 1))]
 
 
+# ---- SocketSpawn.close / isalive -----------------------------------------------------------------------------------
+class SockShutdown(Contract):
+    """socket.shutdown(how): may fail with OSError (ENOTCONN) when the peer has already reset the connection"""
+    params = ['self', 'how']
+
+    def outcomes(self, v):
+        return [Ret(T.NoneT), Raises('OSError', 'not-connected')]
+
+
+class SockCloseCall(Contract):
+    params = ['self']
+
+    def effects(self, v):
+        v.g['sock_closed'] = True
+        v.g['closed_fds'] = v.g['closed_fds'] + 1
+
+
+class SockFileno(Contract):
+    params = ['self']
+
+    def outcomes(self, v):
+        return [Ret(T.Int)]
+
+    def ensures(self, v):
+        return [('closed-socket-has-no-descriptor', Implies(v.g.get('sock_closed', False), eq(v.result, -1)))]
+
+
+class SockClose(Contract):
+    name = SOCK + '.close'
+    props = ('C10',)
+    standin = False
+
+    def shape(self, b):
+        b.ghost('closed_fds', 0)
+        b.ghost('sock_closed', False)
+        sp = b.obj('self', SOCK, sealed=False, child_fd=b.int('child_fd'), closed=b.bool('closed'),
+                   socket=b.obj('socket', 'iface:socket', sealed=False))
+        return dict(self=sp)
+
+    def requires(self, v):
+        sp = v.a.self
+        return [('handle-invariant', eq(sp.closed, eq(sp.child_fd, -1)))]
+
+    def outcomes(self, v):
+        return [Ret(T.NoneT)]
+
+    def exits(self, v):
+        return ()           # a connection the peer already tore down must not keep close() from releasing the socket
+
+    def ensures(self, v):
+        old, new = v.old.self, v.new.self
+        n = v.g['closed_fds'] - v.g0['closed_fds']
+        return [('C10:closed-and-descriptor-forgotten', And(new.closed, eq(new.child_fd, -1))),
+                ('C10:descriptor-released-exactly-once', eq(n, ite(old.closed, 0, 1)))]
+
+
+class SpawnExit(Contract):
+    """with spawn(...) as child: leaving the block closes the child, whether or not by an exception"""
+    name = SPAWNBASE + '.__exit__'
+    receiver = (PTY,)
+    props = ('C10',)
+    standin = False
+
+    def shape(self, b):
+        et = b.opt('etype', lambda: b.any('etype'))
+        return dict(self=pty_shape(b), etype=et, evalue=b.any('evalue'), tb=b.any('tb'))
+
+    def requires(self, v):
+        sp = v.a.self
+        return pty_requires(v) + [('same-handle-state', eq(sp.closed, sp.ptyproc.closed))]
+
+    def outcomes(self, v):
+        return [Ret(T.NoneT), Raises('ExceptionPexpect')]
+
+    def exits(self, v):
+        return ('ExceptionPexpect',)
+
+    def ensures(self, v):
+        new = v.new.self
+        if v.raised is not None:
+            return []
+        return [('C10:leaving-the-block-closes-the-child', And(new.closed, eq(new.child_fd, -1))),
+                ('C10:does-not-swallow-the-exception', is_none(v.result))]
+
+
 def register(reg):
+    reg.add(SpawnExit)
+    reg.add(SockClose)
+    reg.add_iface('iface:socket', 'shutdown', SockShutdown)
+    reg.add_iface('iface:socket', 'close', SockCloseCall)
+    reg.add_iface('iface:socket', 'fileno', SockFileno)
     reg.add_iface('iface:ptyproc', 'isalive', PtyIsalive)
     reg.add_iface('iface:ptyproc', 'wait', PtyWait)
     reg.add_iface('iface:ptyproc', 'close', PtyClose)
@@ -499,3 +589,5 @@ def register(reg):
     for c in (SpawnIsalive, SpawnWait, SpawnKill, SpawnTerminate, SpawnClose, FdClose, FdIsalive, PopenWait):
         reg.add(c)
     reg.inline_ok.update({'pexpect.spawnbase.SpawnBase.flush'})
+
+
